@@ -49,12 +49,26 @@
 (*            pairs, for the model check and the negative controls.  The   *)
 (*            full alphabet (deep, small, sim) has Mutate(1) when object 1 *)
 (*            was built from a live container                              *)
+(*   "heap"   round 6: object LIFETIMES.  HeapTuples (a, b, c): a and b are *)
+(*            built first (b a separately built equal of a); then every    *)
+(*            history with HeapDepth events other than New over hash / ==  *)
+(*            / dict put / dict get on the live objects, Drop(i) (the      *)
+(*            lifetime of a live object ends; its address is free) and     *)
+(*            New-again (c - same class as a, one field different: plainly *)
+(*            or with a colliding hash (-1 / -2), or == a - is built after *)
+(*            a Drop and, the model's allocator says, at the dead object's *)
+(*            address), ending with a use of the new object.  "heapd": the *)
+(*            same one event longer over dict put of a / look-ups / Drop / *)
+(*            New-again; "heapx" (thorough): four of the tuples, one event *)
+(*            longer over the whole alphabet.  "hpsmall" / "hdsmall": three such tuples, for    *)
+(*            the model check and the negative controls (equality          *)
+(*            memoised by address)                                         *)
 (***************************************************************************)
 EXTENDS C01_Objects, C01_Catalogue, Json
-CONSTANTS Sweeps, PairDepth, NearDepth, DeepDepth, HierDepth, XDepth, SelfDepth, FormDepth, Wide, EmitCases
+CONSTANTS Sweeps, PairDepth, NearDepth, DeepDepth, HierDepth, XDepth, SelfDepth, FormDepth, HeapDepth, Wide, EmitCases
 VARIABLES todo, hist, sweep, arr
 
-vars == << objs, dict, last, cmemo, todo, hist, sweep, arr >>
+vars == << objs, dict, last, cmemo, heap, todo, hist, sweep, arr >>
 
 \* unordered: keep (a, b) with a <= b by position
 UPairs == UNION { { << Families[i][a], Families[i][b] >> :
@@ -94,10 +108,13 @@ SelfSmall == { << PowN1 >>, << Un("LogicalNot", PowN1) >>, << U3("ULegChild", x,
 XCombos == { << "pkh", "" >>, << "pkc", "" >>, << "", "pkh" >> }
            \cup (IF Wide THEN { << "pk", "" >> } ELSE {})
 XSweeps == {"xtwin", "xnear", "xdeep", "xsmall"}
+\* round 6: sweeps whose histories end lifetimes; the last specification of todo is built
+\* only after a Drop
+HeapSweeps == {"heap", "heapd", "heapx", "hpsmall", "hdsmall"}
 Twins(P) == { << p[1], p[1] >> : p \in P }
 
 Init ==
-    /\ objs = << >> /\ dict = << >> /\ cmemo = {}
+    /\ objs = << >> /\ dict = << >> /\ cmemo = {} /\ heap = Heap0
     /\ last = [ev |-> EvNew(NoneV), chk |-> "OK", dev |-> ""]
     /\ hist = << >>
     /\ sweep \in Sweeps
@@ -124,6 +141,11 @@ Init ==
                                             p \in FormSmallPairs, F \in MapForms \ {"imm"} }
                   [] sweep = "selfn" -> { << sp >> : sp \in NaNSpecs }
                   [] sweep = "ssmall" -> SelfSmall
+                  [] sweep = "heap"  -> IF Wide THEN HeapTuples(HeapPairs) \cup HeapTuplesOther
+                                        ELSE HeapTuples(HeapPairsQuick)
+                  [] sweep = "heapd" -> HeapTuples(IF Wide THEN HeapPairsQuick \cup RepPairs ELSE HeapPairsQuick)
+                  [] sweep = "heapx" -> HeapTuples(HeapDeepPairs)
+                  [] sweep \in {"hpsmall", "hdsmall"} -> HeapTuples(HeapSmallPairs)
     /\ arr \in (IF sweep \in XSweeps THEN XCombos
                 ELSE IF sweep = "sim" THEN XCombos \cup { << >> } ELSE { << >> })
 
@@ -172,22 +194,40 @@ LiveBuilt(i) == i <= NNew /\ i <= Len(hist) /\ FormsIn(hist[i].spec) \cap LiveFo
 FormAlphabet ==
     { EvMutate(1), EvHash(1), EvHash(2), EvEq(1, 2), EvEq(2, 1), EvPut(1, Len(hist)), EvGet(2) }
 
+\* round 6: plain uses of the LIVE objects, the end of a lifetime (while an object is
+\* still to be built after it; never of a key of the dict: the dict keeps that alive),
+\* and the building of the next object once an address is free
+HeapAlphabet ==
+    LET L == LiveIdx(Cur) IN
+       (IF sweep \in {"heap", "heapx", "hpsmall"}
+        THEN { EvHash(i) : i \in L } \cup UNION { { EvEq(i, j) : j \in L \ {i} } : i \in L }
+             \cup { EvPut(i, Len(hist)) : i \in L }
+        ELSE { EvPut(1, Len(hist)) : i \in L \cap {1} })
+  \cup { EvGet(i) : i \in L }
+  \cup (IF Len(heap.free) < Len(todo) THEN { EvDrop(i) : i \in { i2 \in L : ~IsKey(Cur, i2) } } ELSE {})
+  \cup (IF heap.free # << >> /\ Len(todo) > 0 THEN { EvNew(Head(todo)) } ELSE {})
+
+\* (round 6: over the LIVE objects; in the random walks a lifetime may end anywhere - of any
+\* object but the first, which the events below are about, and never of a key of the dict -
+\* and the copies / mapper results / replaced objects made later take the freed address)
 FullAlphabet ==
-    LET I == 1..N IN
+    LET I == LiveIdx(Cur) IN
        { EvHash(i) : i \in I }
   \cup (IF LiveBuilt(1) THEN { EvMutate(1) } ELSE {})
   \cup { EvEq(i, j) : i \in I, j \in I }
   \cup { EvNe(i, j) : i \in {1}, j \in I }
   \cup { EvSetAttr(1, 0, fn) : fn \in FNSet(1) }
-  \cup (IF N >= 2 THEN { EvSetAttr(1, 2, fn) : fn \in DiffFields(1, 2) } ELSE {})
+  \cup (IF 2 \in I THEN { EvSetAttr(1, 2, fn) : fn \in DiffFields(1, 2) } ELSE {})
   \cup { EvDelAttr(1, fn) : fn \in FNSet(1) }
   \cup (IF N < 4 THEN { EvCopy(1, md) : md \in {"copy", "deepcopy", "pickle"} }
                    \cup { EvTouch(1, "rebuild") }
-                   \cup (IF N >= 2 THEN { EvReplace(1, 2, fn) : fn \in DiffFields(1, 2) } ELSE {})
+                   \cup (IF 2 \in I THEN { EvReplace(1, 2, fn) : fn \in DiffFields(1, 2) } ELSE {})
         ELSE {})
   \cup { EvTouch(1, md) : md \in {"stock", "cim", "str", "repr", "deps"} }
   \cup { EvPut(i, Len(hist)) : i \in I }
   \cup { EvGet(i) : i \in I }
+  \cup (IF sweep = "sim" /\ N < 4
+        THEN { EvDrop(i) : i \in { i2 \in I \ {1} : ~IsKey(Cur, i2) } } ELSE {})
 
 Depth == CASE sweep = "pairs" -> PairDepth
            [] sweep = "near"  -> NearDepth
@@ -201,10 +241,14 @@ Depth == CASE sweep = "pairs" -> PairDepth
            [] sweep \in {"self", "ssmall"} -> SelfDepth
            [] sweep = "selfn" -> SelfDepth + 1
            [] sweep \in {"forms", "fsmall"} -> FormDepth
+           [] sweep \in {"heap", "hpsmall"} -> HeapDepth
+           [] sweep \in {"heapd", "heapx", "hdsmall"} -> HeapDepth + 1
 NOps == Len(hist) - NNew
+\* the objects every history starts with are still being built
+Building == IF sweep \in HeapSweeps THEN Len(todo) > 1 ELSE Len(todo) > 0
 
 Next ==
-    IF Len(todo) > 0
+    IF Building
     THEN LET md == IF NNew + 1 <= Len(arr) THEN arr[NNew + 1] ELSE ""
               ev == EvNewVia(Head(todo), md)
          IN /\ Step(ev)
@@ -218,16 +262,20 @@ Next ==
                         ELSE IF sweep \in {"hier", "hsmall"} THEN UseAlphabet
                         ELSE IF sweep \in {"self", "selfn", "ssmall"} THEN SelfAlphabet
                         ELSE IF sweep \in {"forms", "fsmall"} THEN FormAlphabet
+                        ELSE IF sweep \in HeapSweeps THEN HeapAlphabet
                         ELSE FullAlphabet) :
                \* (a put the dict model cannot follow, see C01_Objects!PutAmbiguous)
                /\ ~(ev.op = "DictPut" /\ PutAmbiguous(Cur, ev.i))
                /\ Step(ev)
                /\ hist' = Append(hist, ev)
-         /\ UNCHANGED << todo, sweep, arr >>
+               /\ todo' = IF ev.op = "New" THEN Tail(todo) ELSE todo
+         /\ UNCHANGED << sweep, arr >>
 
 Spec == Init /\ [][Next]_vars
 
 Complete == Len(todo) = 0 /\ (NOps = Depth \/ N = 0 \/ Deviated)
+            \* a lifetime history ends with a use of the object that was built after the Drop
+            /\ (sweep \in HeapSweeps => hist[Len(hist)].op \notin {"New", "Drop"})
 Emit == (EmitCases /\ Complete /\ sweep # "sim") =>
             PrintT(ToJson([sweep |-> sweep, hist |-> hist]))
 \* In simulation mode TLC evaluates invariants on *every* successor of the state it is
